@@ -470,6 +470,16 @@ def rule_stop_flag(ctx, cfg, F):
         # guard held: the MutexGuard local is dropped only after the last send
         guard_drops = [b for b in f.live_blocks() if f.term(b)["t"] == "drop" and "MutexGuard" in f.term(b)["ty"] and not f.is_cleanup(b)]
         bad = [g for g in guard_drops if any(s in f.reachable(g) for s in sends)]
+        # several locks (the state in a mutex of its own beside the one around the channel ends): one guard taken before the test and kept across the sends is what makes
+        # test-and-send atomic; a guard that only lived for the test itself does not matter then
+        by_guard = {}
+        for g in guard_drops:
+            by_guard.setdefault(f.term(g)["pl"]["l"] if isinstance(f.term(g).get("pl"), dict) else f.term(g).get("l"), []).append(g)
+        def held_across(targets):
+            return [gl for gl, drops in by_guard.items() if gl is not None and not any(s in f.reachable(d) for d in drops for s in targets)
+                    and any(f.dominates(d0[0], flag_switch) for d0 in f.defs().get(gl, []) if not f.is_cleanup(d0[0]))]
+        if bad and held_across(sends):
+            bad = []
         if bad:
             R.violate("%s:guard-released-before-send" % f.path, "the proxy mutex guard is released before the sends complete", f.path, f.loc(bad[0]), config=cfg)
             continue
@@ -484,6 +494,7 @@ def rule_stop_flag(ctx, cfg, F):
                 R.violate("%s:returns-without-recording-stop" % f.path, "%s can return without having written the stopped state and without having found it already written" % f.path, f.path, f.loc(flag_switch), config=cfg)
                 continue
             waits = [b for b, t in f.calls() if strip_generics(callee_name(t)) == "crossbeam_channel::Receiver::recv" and "()" in " ".join(t.get("generics", []))]
+            closure_skips = []
             # closure form: Result::map(wakeup result, closure that sends and waits)
             for b, t in f.calls():
                 if strip_generics(callee_name(t)) in ("std::result::Result::map", "std::result::Result::and_then"):
@@ -493,16 +504,79 @@ def rule_stop_flag(ctx, cfg, F):
                             g = F.fns.get(r.id) if r.kind == "agg" else None
                             if g is not None and any(strip_generics(callee_name(t2)) == "crossbeam_channel::Receiver::recv" for _, t2 in g.calls()):
                                 waits.append(b)
+                                gw = [b2 for b2, t2 in g.calls() if strip_generics(callee_name(t2)) == "crossbeam_channel::Receiver::recv"]
+                                if not g.all_paths_pass(0, set(gw))[0]:
+                                    closure_skips.append((g, gw[0]))
             if not waits:
                 R.violate("%s:no-ack-wait" % f.path, "%s sets the shutdown flag but never waits for the router's acknowledgement" % f.path, f.path, f.loc(flag_switch), config=cfg)
                 continue
+            # ... and on every way out: a caller for which the wait is skipped (a per-thread "I am the router" flag, a timeout) gets shutdown() back while the
+            # router may still be running callbacks -- the flag cannot tell this router's thread from another router's
+            skipped = [sb for sb in stores if not f.all_paths_pass(sb, set(waits))[0]]
+            if closure_skips and not skipped:
+                skipped = [stores[0]] if stores else [flag_switch]
+            if skipped:
+                R.violate("%s:ack-wait-skipped" % f.path, "%s records the stop and can then return without waiting for the router's acknowledgement on some path: when it returns the router "
+                          "may still be invoking callbacks" % f.path, f.path, f.loc(skipped[0]), config=cfg)
+                continue
             late = [g_ for g_ in guard_drops if any(w in f.reachable(g_) for w in waits)]
+            if late and held_across(waits):
+                late = []
             if late:
                 R.violate("%s:ack-wait-outside-guard" % f.path, "the proxy mutex is released before the acknowledgement is awaited: a second shutdown() racing with the first sees the flag set "
                           "and returns while the router thread is still running", f.path, f.loc(late[0]), config=cfg)
                 continue
         R.ok("%s: flag test dominates %d sends; flag-set edge sends nothing; guard held across the sends%s" % (f.path, len(sends), " and the acknowledgement wait" if sets_flag else ""), f.loc(flag_switch), cfg)
     R.count("proxy_senders[%s]" % cfg, n)
+
+
+LOCKS = ("std::sync::Mutex::lock", "std::sync::poison::mutex::Mutex::lock", "std::sync::RwLock::write", "std::sync::RwLock::read")
+
+
+def rule_lock_order(ctx, cfg, F, prefix="router::"):
+    R = ctx.rule("LOCK-ORDER", "locks are taken in one order: whenever a function takes mutex B while it still holds the guard of mutex A, no function takes A while holding B's guard "
+                 "(two threads in the two functions would each wait for the other's lock -- shutdown against add_route)")
+    edges = {}
+    n_locks = 0
+    for f in sorted(F.fns.values(), key=lambda x: x.path):
+        if not f.path.startswith(prefix):
+            continue
+        tr = None
+        locks = []
+        for b, t in f.calls():
+            if strip_generics(callee_name(t)) in LOCKS and t["args"]:
+                tr = tr or Tracer(f)
+                rs = tr.roots_of_operand(t["args"][0])
+                if len(rs) != 1:
+                    continue
+                r = next(iter(rs))
+                key = "%s:%s%s" % (r.kind, (f.local_ty(r.id).lstrip("&") if r.kind == "param" else r.id), "".join("." + n_ for n_ in r.field_names()))
+                # the guard: the local the lock result ends up in (through unwrap / expect / ?)
+                g = t["dest"]["l"]
+                for _ in range(4):
+                    nxt = [b2 for b2, t2 in f.calls() if t2["args"] and op_local(t2["args"][0]) == g and strip_generics(callee_name(t2)) in
+                           ("std::result::Result::unwrap", "std::result::Result::expect", "std::result::Result::unwrap_or_else")]
+                    if not nxt:
+                        break
+                    g = f.term(nxt[0])["dest"]["l"]
+                drops = [d for d in f.live_blocks() if f.term(d)["t"] == "drop" and not f.is_cleanup(d) and f.term(d)["pl"]["l"] == g]
+                locks.append((b, t, key, drops))
+        n_locks += len(locks)
+        for b, t, key, drops in locks:
+            under = f.reachable(t["to"], avoid=drops) - set(drops)
+            for b2, t2, key2, _ in locks:
+                if b2 != b and b2 in under and key2 != key:
+                    edges.setdefault((key, key2), (f.path, f.loc(b2)))
+    bad = False
+    for (a, b_), (fn, loc) in sorted(edges.items()):
+        if (b_, a) in edges and a < b_:
+            bad = True
+            fn2, loc2 = edges[(b_, a)]
+            R.violate("lock-order-inverted:%s<->%s" % (a.split(":")[-1], b_.split(":")[-1]),
+                      "%s takes %s while holding %s (%s), and %s takes them the other way round (%s): two threads, one in each function, deadlock" % (fn, b_, a, loc, fn2, loc2), fn, loc, config=cfg)
+    if not bad:
+        R.ok("%d lock sites, %d nested acquisitions, no two in opposite order" % (n_locks, len(edges)), None, cfg)
+    R.count("lock_sites[%s]" % cfg, n_locks)
 
 
 def rule_stop_nodrop(ctx, cfg, F):
@@ -605,7 +679,12 @@ def _place_type(f, pl):
     projs = [e for e in pl.get("p", []) if isinstance(e, dict) and "f" in e]
     if projs:
         return projs[-1].get("t", "")
-    return f.local_ty(pl["l"])
+    ty = f.local_ty(pl["l"])
+    for e in pl.get("p", []):
+        if e == "*":
+            # `*guard` with the state kept in a mutex of its own (`Mutex<bool>`): the pointee
+            ty = ty[len("&mut "):] if ty.startswith("&mut ") else (ty[1:] if ty.startswith("&") else ty)
+    return ty
 
 
 def rule_forward_closure(ctx, cfg, F):
@@ -647,6 +726,49 @@ REORDER = ("sort", "sort_by", "sort_by_key", "sort_unstable", "sort_unstable_by"
            "swap_remove", "dedup", "dedup_by", "dedup_by_key", "retain", "retain_mut", "rev", "select_nth_unstable", "select_nth_unstable_by_key", "partition", "shuffle", "insert", "truncate", "split_off")
 
 
+STABLE_KEYED = ("sort_by_key", "sort_by_cached_key")
+
+
+def _key_ignores_payload(F, f, clo):
+    """the key closure of a stable sort over the event batch: True when its body reads nothing of an event but its discriminant and field 0 (the member id)
+    and passes the event to no function that stays out of line"""
+    l = op_local(clo)
+    g = None
+    for _ in range(6):
+        if l is None:
+            return False
+        ds = [d for d in f.defs().get(l, []) if not f.is_cleanup(d[0]) and d[1] is not None]
+        if len(ds) != 1:
+            return False
+        rv = ds[0][2]["rv"]
+        if rv["r"] == "agg" and "closure" in rv["kind"]:
+            g = F.fns.get(rv["kind"]["closure"])
+            break
+        if rv["r"] in ("use", "cast") and op_local(rv["a"][0]) is not None:
+            l = op_local(rv["a"][0])
+            continue
+        return False
+    if g is None or g.argc < 2:
+        return False
+    for b in g.live_blocks():
+        for st in g.stmts(b):
+            if st["s"] != "assign":
+                continue
+            rv = st["rv"]
+            pls = [a["pl"] for a in rv.get("a", []) if a.get("k") in ("cp", "mv")] + ([rv["pl"]] if "pl" in rv else [])
+            for pl in pls:
+                pr = pl.get("p") or []
+                for i, e in enumerate(pr):
+                    if isinstance(e, dict) and "v" in e:
+                        nxt = pr[i + 1] if i + 1 < len(pr) else None
+                        if not (isinstance(nxt, dict) and nxt.get("f") == 0 and nxt.get("t") in ("u64", "usize")):
+                            return False
+        t = g.term(b)
+        if t["t"] == "call":
+            return False          # something else sees the event (or decides the key): not judged here
+    return True
+
+
 def rule_batch_order(ctx, cfg, F, rule_name="RT-ORDER", only_prefix=None):
     R = ctx.rule(rule_name, "the batch of events returned by select() is consumed in the order returned: no sorting, reversing, swapping, filtering or partial consumption API is applied to it "
                  "between select() and the dispatch loop (per-channel message order is the order of the batch)")
@@ -665,6 +787,11 @@ def rule_batch_order(ctx, cfg, F, rule_name="RT-ORDER", only_prefix=None):
             if short in REORDER and t["args"]:
                 roots = tr.roots_of_operand(t["args"][0])
                 if any(r.kind == "call" and r.block in sel_blocks for r in roots):
+                    if short in STABLE_KEYED and len(t["args"]) > 1 and _key_ignores_payload(F, f, t["args"][1]):
+                        # a stable sort whose key reads nothing of an event but which member it belongs to and whether it is the closure: events of one
+                        # member keep their relative order (and the closure, reported last by the set, stays last)
+                        R.ok("%s sorts the batch by member (stable, key independent of the payload)" % f.path, f.loc(b), cfg)
+                        continue
                     R.violate("%s:batch-reordered:%s" % (strip_generics(f.path), short), "%s applies %s to the batch returned by select(): events of one channel can be handled out of order (or a closure before its last message)" % (f.path, nm),
                               f.path, f.loc(b), config=cfg)
                     n += 1
